@@ -64,7 +64,7 @@ class C32(Check):
         pool = self.key_pool(r)
         bits = r.range(1, 3)
         hint = r.pick([1, 1, 1, 2, 2, 3, 0, 4, -1])
-        maxbits = r.pick([24, 24, 24, bits + r.range(1, 5), 8])
+        maxbits = r.pick([12, 10, 9, bits + r.range(1, 5), 8])      # 24 (the default) would let hint<=0 cases allocate 2^23 buckets
         handle = r.chance(1, 3)
         live, ops, nv = {}, [], [0]
         dup_ok = r.chance(1, 12)          # API precondition violated on purpose (compared with the model only)
